@@ -174,4 +174,25 @@ def getDerived (b : Blob) (key : String) (_ : Chain) : Res :=
 def setDerived (b : Blob) (key : String) (_ : Chain) : Res :=
   derivedAccess b key (clearError [])
 
+/-! ### Allocations whose size comes from the dump file -/
+def kdumpSYSTEM : Int := Kdf.Gen.Status.kdumpCodes.getD 1 99999
+
+/-- `set_error(ctx, KDUMP_ERR_SYSTEM, msg)`: on an empty chain the text of `errno` becomes the innermost link -/
+def setErrorSystem (c : Chain) (msg errnoText : String) : Res :=
+  (kdumpSYSTEM, if c = [] then [msg, errnoText] else msg :: c)
+
+/-- `ctx_malloc(size, ctx, desc)` (`src/kdumpfile/util.c`): `got` = `malloc(size)` returned a block.  The contract its
+callers rely on (they return KDUMP_ERR_SYSTEM without a message of their own): NULL comes with the message set,
+whatever the size. -/
+def ctxMalloc (size : Nat) (desc : String) (got : Bool) (errnoText : String) (c : Chain) : Res :=
+  if got then (0, c)
+  else setErrorSystem c ("Cannot allocate " ++ desc ++ " (" ++ toString size ++ " bytes)") errnoText
+
+/-- `kdump_set_attr("addrxlat.ostype", "linux")` on an s390x dump up to the allocation of the VMCOREINFO buffer in
+`read_os_info_from_lowcore` (os_info page valid, entry size `size`): the call clears the error, the status of the
+post-set hook is returned unwrapped.  `rest` = everything behind a successful allocation. -/
+def s390OsInfoAlloc (size : Nat) (got : Bool) (errnoText : String) (rest : Part) (_ : Chain) : Res :=
+  let a := ctxMalloc size "VMCOREINFO buffer" got errnoText (clearError [])
+  if a.1 ≠ 0 then a else rest.apply a.2
+
 end Kdf.Model.ErrFlow
